@@ -14,7 +14,7 @@
 (*   out.files[f]        ru[g][i], rv[g] (flat) restored values;           *)
 (*                       blocks[k] = what was found in the file of step k  *)
 (* Property clauses (violations):                                          *)
-(*   ImportSucceeds      the import does not raise                         *)
+(*   ImportSucceeds      neither the export nor the import raises          *)
 (*   LatestStep          the step restored is the largest exported index   *)
 (*   RestoredIsWritten   every entity gets back, cell by cell, the values  *)
 (*                       written at the step the import reports            *)
